@@ -10,12 +10,12 @@ mvars == <<l, pend, started, cancelled>>
 Ev == TraceLog[l]
 Consume(e) == l <= Len(TraceLog) /\ Ev.ev = e /\ l' = l + 1
 
-MReset == Consume("reset") /\ pend' = <<>> /\ started' = FALSE /\ cancelled' = FALSE
+MReset == Consume("reset") /\ pend' = <<>> /\ started' = FALSE /\ cancelled' = {}
 MCfg == Consume("cfg") /\ UNCHANGED <<pend, started, cancelled>>
 \* a positive return only when something had changed for that waiter; a negative one only after cancellation
-RetOK(r, now) == IF r.ok THEN (started => pend[r.w]) ELSE now
+RetOK(r, now) == IF r.ok THEN (started => pend[r.w]) ELSE r.w \in now
 MStep == /\ Consume("step")
-         /\ LET now == cancelled \/ (Ev.t = "cancel" /\ Ev.from = "c_cancel" /\ Ev.ok) IN
+         /\ LET now == IF Ev.t = "cancel" /\ Ev.from = "c_cancel" /\ Ev.ok THEN cancelled \cup ToSet(Ev.ctargets) ELSE cancelled IN
               /\ cancelled' = now
               /\ \A i \in DOMAIN Ev.ret : RetOK(Ev.ret[i], now)
          /\ pend' = Ev.pending /\ started' = TRUE
@@ -23,10 +23,10 @@ MStep == /\ Consume("step")
 MFinal == /\ Consume("final")
           /\ Ev.atgate = <<>> /\ ~Ev.livelock
           /\ \A i \in DOMAIN Ev.parked :
-                LET w == Ev.parked[i] IN ~cancelled /\ (w \in DOMAIN Ev.pending => ~Ev.pending[w])
+                LET w == Ev.parked[i] IN w \notin cancelled /\ (w \in DOMAIN Ev.pending => ~Ev.pending[w])
           /\ UNCHANGED <<pend, started, cancelled>>
 MNext == MReset \/ MCfg \/ MStep \/ MFinal
-MInit == l = 1 /\ pend = <<>> /\ started = FALSE /\ cancelled = FALSE /\ TLCSet(42, 1)
+MInit == l = 1 /\ pend = <<>> /\ started = FALSE /\ cancelled = {} /\ TLCSet(42, 1)
 MSpec == MInit /\ [][MNext]_mvars
 Mark == TLCSet(42, IF l > TLCGet(42) THEN l ELSE TLCGet(42))
 Accepted == LET hw == TLCGet(42) IN
